@@ -18,6 +18,7 @@ def parseOp : List String → Option SOp
   | "q" :: r => (parseCall r).map .q
   | "d" :: r => (parseCall r).map .d
   | ["w", v] => v.toNat?.map .w
+  | ["x", v] => v.toNat?.map .x
   | _ => none
 
 structure SDef where
@@ -93,6 +94,7 @@ def showEv : SEv → String
   | .spawned id d => s!"sc spawned s{id} def{d}"
   | .despawned id => s!"sc despawned s{id}"
   | .capped k key => s!"sc capped {showKind k}{key}"
+  | .call k key => s!"sc call {showKind k}{key}"
 
 /-- Runs a whole scenario, returning the trace lines. -/
 def runScenario (sc : SScenario) : List String :=
